@@ -2,13 +2,174 @@
 import json
 import os
 import random
+import threading
+
+import vf
 
 GEN_W = "SPECIFICATION Spec\nINVARIANT EmitW\nVIEW View\nCHECK_DEADLOCK FALSE"
 GEN_ALL = "SPECIFICATION Spec\nINVARIANT Emit\nCHECK_DEADLOCK FALSE"
 
 
+ASG_EVENTS = ("toreq", "assign", "e2e", "sec2ttl")
+PLACES = {"none": ("", ""), "dc": ("dc1", ""), "rack": ("", "r1"), "dcrack": ("dc1", "r1")}
+INT32_MAX = 2147483647
+# Seconds that the model does not range over but the code can be handed: AssignVolume passes the client's int32 on
+# unchanged, and the filer's ?ttl= wraps into the negatives above 68 years (an entry with TtlSec <= 0 never expires).
+NEGATIVE_SECS = [-1, -59, -60, -61, -3600, -86400, -31536000, -1141367296, -INT32_MAX, -INT32_MAX - 1]
+
+
+def asg_script(ctx, hists, rng, path):
+    """Executions of the filer clause from the histories TLC emitted for TtlAssignImpl (inputs only)."""
+    toreq, assign = [], []
+    for h in hists:
+        for op in h:
+            (toreq if op["ev"] == "toreq" else assign).append(op)
+    boundary = sorted({op["sec"] for op in toreq})
+
+    def mk_toreq(sec, place):
+        dc, rack = PLACES[place]
+        return {"ev": "toreq", "sec": sec, "count": rng.choice([1, 1, 2, 5]), "coll": rng.choice(["", "c1"]),
+                "repl": rng.choice(["", "000", "001"]), "disk": rng.choice(["", "ssd"]), "dc": dc, "rack": rack,
+                "growth": rng.choice([0, 0, 2])}
+
+    evs = [mk_toreq(op["sec"], op["place"]) for op in toreq]
+    if ctx.thorough:
+        evs += [mk_toreq(s, rng.choice(["dc", "rack"])) for s in boundary]
+    # dense range: every second up to two hours in the thorough tier; in the quick tier every second up to ten
+    # minutes (what TLC model-checks there) and a seeded sample of the rest
+    dense = list(range(0, 7301)) if ctx.thorough else list(range(0, 601)) + sorted(rng.sample(range(601, 7301), 400))
+    evs += [mk_toreq(s, rng.choice(sorted(PLACES))) for s in dense]
+    evs += [mk_toreq(s, p) for s in NEGATIVE_SECS for p in ("none", "dcrack")]
+    execs = [evs[i:i + 40] for i in range(0, len(evs), 40)]
+
+    def answers(kinds):
+        return [{"kind": k, "fid": "%d,%02x5f3a2b1c" % (7 + j, j + 1) if k == "ok" else "",
+                 "count": j + 1 if k == "ok" else 0,
+                 "error": {"ok": "", "zero": "no free volumes left", "rpcerr": "master is not the leader"}[k]}
+                for j, k in enumerate(kinds)]
+
+    aevs = []
+    for op in assign:
+        dc, rack = PLACES[op["place"]]
+        reqs = []
+        for j, present in enumerate(op["pat"]):
+            reqs.append({"present": present, "count": 1 if present else 0, "coll": "t%d" % (j + 1) if present else "",
+                         "ttl": ["3m", "4h", "5d"][j % 3] if present else "", "repl": "", "disk": "", "dc": "", "rack": "",
+                         "node": "", "growth": 0})
+        aevs.append({"ev": "assign", "sec": op["sec"], "dc": dc, "rack": rack, "reqs": reqs, "ans": answers(op["kinds"])})
+    rng.shuffle(aevs)
+    execs += [aevs[i:i + 8] for i in range(0, len(aevs), 8)]
+
+    # end to end against the mini-cluster (one volume is grown per event)
+    n = 14 if ctx.thorough else 5
+    e2e = []
+    for s in [0, 1, 61, 15301, INT32_MAX] + rng.sample(boundary, n):
+        dc, rack = PLACES[rng.choice(sorted(PLACES))]
+        e2e.append({"ev": "e2e", "via": "direct", "sec": s, "ttl": "", "dc": dc, "rack": rack})
+    for s in [0, 59, 918001] + rng.sample(boundary, n):
+        dc, rack = PLACES[rng.choice(sorted(PLACES))]
+        e2e.append({"ev": "e2e", "via": "grpc", "sec": s, "ttl": "", "dc": dc, "rack": rack})
+    ttls = ["", "1m", "5m", "59m", "255m", "3h", "25h", "2d", "1w", "53w", "1M", "13M", "1y", "2y", "68y", "100y", "255y"]
+    for t in ["5m", "68y", "69y", "137y"] + [rng.choice(ttls) for _ in range(n)]:
+        e2e.append({"ev": "e2e", "via": "post", "sec": 0, "ttl": t, "dc": "", "rack": ""})
+    execs += [e2e[i:i + 6] for i in range(0, len(e2e), 6)]
+    with open(path, "w") as f:
+        for ex in execs:
+            f.write(json.dumps({"ev": "reset", "vttl": "", "keys": []}) + "\n")
+            for op in ex:
+                f.write(json.dumps(op) + "\n")
+    return len(execs)
+
+
+def asg_part(ctx, binp, rng, replay=None):
+    """The filer clause: seconds -> StorageOption.ToAssignRequests -> operation.Assign -> volume."""
+    script = replay
+    if not replay:
+        base = {"Dense": 7300 if ctx.thorough else 600, "MaxReqs": 3, "Rounding": "ceil",
+                "Kinds": {"rpcerr", "zero", "ok"}, "PipeAll": ctx.thorough}
+        inst = ctx.instance("MC_C09_assign", "TtlAssignImpl", "TtlAssignImpl_mc.cfg", base)
+        # the clause has teeth: the mapping that rounds down (the code before /repo 3944c296) violates it
+        bad = ctx.instance("MC_C09_assign_floor", "TtlAssignImpl", "SPECIFICATION Spec\nINVARIANT NeverShorter\nCHECK_DEADLOCK FALSE",
+                           dict(base, Dense=200, MaxReqs=1, Kinds={"ok"}, PipeAll=False, Rounding="floor"))
+        floor_err = []
+
+        def floor_run():
+            try:
+                ctx.model_check(bad, workers=1, timeout=600, coverage=False, expect_violation="NeverShorter",
+                                label="rounding down: NeverShorter must fail")
+            except Exception as ex:  # re-raised in the main thread
+                floor_err.append(ex)
+
+        ft = threading.Thread(target=floor_run)
+        ft.start()
+        try:
+            r = ctx.model_check(inst, workers=3, timeout=1800,
+                                label="filer clause: seconds -> requests -> Assign loop (model check and generator)")
+        finally:
+            ft.join()
+        if floor_err:
+            raise floor_err[0]
+        seen, hists = set(), []
+        for t, rest in r.prints:
+            if t == "W" and rest not in seen:
+                seen.add(rest)
+                hists.append(json.loads(vf.parse_tla_string(rest)))
+        if not hists:
+            raise vf.Infra("TtlAssignImpl emitted no histories")
+        script = os.path.join(ctx.out, "script-asg.ndjson")
+        asg_script(ctx, hists, rng, script)
+    trace = ctx.drive(binp, ["--mode", "asg", "--script", script], name="asg", timeout=1200)
+
+    def mutate(evs):
+        for i, e in enumerate(evs):
+            if e["ev"] == "toreq" and e["sec"] > 120 and e["pri"]["minutes"] > 1:
+                m = [dict(x) for x in evs]
+                m[i]["pri"] = dict(e["pri"], minutes=1)
+                return m
+        return None
+
+    def nontrivial(ls):
+        for s in ls:
+            e = json.loads(s)
+            if (e["ev"] == "toreq" and e["sec"] != 0) or (e["ev"] == "assign" and len(e["seen"]) > 0) or \
+                    (e["ev"] == "e2e" and e["vol"]["found"]):
+                return True
+        return False
+
+    # advisory, in parallel with the verdict: what the statement does not demand (Tight)
+    adv_err = []
+
+    def advisory():
+        try:
+            ctx.judge_advisory("TtlTrace", trace, "trace_base.cfg", {"Tight": True}, label="tight")
+        except Exception as ex:  # re-raised in the main thread
+            adv_err.append(ex)
+
+    adv = threading.Thread(target=advisory)
+    adv.start()
+    try:
+        ctx.judge("TtlTrace", trace, "trace_base.cfg", {"Tight": False}, mutate=mutate, nontrivial=nontrivial,
+                  label="asg", chunk_events=4000 if ctx.thorough else 1200, jobs=4)
+    finally:
+        adv.join()
+    if adv_err:
+        raise adv_err[0]
+    if ctx.model_drift:
+        ctx.notes["filer_clause_advisory"] = ("executions in which a positive entry TTL got no volume TTL at all, or the "
+                                              "alternate request's ttl differs from the primary's (admitted by the "
+                                              "statement; counted by the Tight variant of TtlTrace): %d of %d"
+                                              % (ctx.model_drift[-1]["unexplained"], ctx.model_drift[-1]["executions"]))
+
+
 def run(ctx):
-    ctx.sany("Ttl", "TtlTrace")
+    ctx.sany("TtlAssignImpl", "Ttl", "TtlTrace")   # each of them EXTENDS TtlAssign
+    rng0 = random.Random(ctx.seed * 7919 + 9)
+    if ctx.replay and any('"ev": "%s"' % k in ln or '"ev":"%s"' % k in ln for ln in open(ctx.replay) for k in ASG_EVENTS):
+        asg_part(ctx, ctx.build("c09"), rng0, replay=ctx.replay)
+        return
+    if os.environ.get("C09_PART") == "asg":   # development shortcut: the filer clause only
+        asg_part(ctx, ctx.build("c09"), rng0)
+        return
     kf = set(ctx.kf_open.keys()) | {"C04-ttl-filter", "C09-volume-expiry-uses-last-modified"}
     parts = []
     rng = random.Random(ctx.seed)
@@ -49,20 +210,34 @@ def run(ctx):
                 return m
         return None
 
-    ctx.judge("TtlTrace", trace, "trace_base.cfg", {}, mutate=mutate,
+    ctx.judge("TtlTrace", trace, "trace_base.cfg", {"Tight": False}, mutate=mutate,
               nontrivial=lambda ls: any('"ev":"age"' in s for s in ls) and any('"st":"data"' in s for s in ls))
     if not ctx.replay:
-        # filer side: the volume TTL chosen for an entry's TTL in seconds
-        t2 = ctx.drive(binp, ["--mode", "sec2ttl"], name="sec2ttl")
-        ctx.judge("TtlTrace", t2, "trace_base.cfg", {}, label="sec", nontrivial=lambda ls: True)
+        # filer side: the volume TTL requested, and the volume really chosen, for an entry's TTL in seconds
+        asg_part(ctx, binp, rng0)
     ctx.rule = ("executions = TLC-generated histories of Ttl.tla containing an ageing step (G2 witnesses over 2 keys x blob TTL "
                 "{none, 3m, 1h} x client timestamp {none, 10000 min in the past} x ageing {2, 5, 70 min} x both compactions x "
                 "heartbeat-driven volume expiry; G3 random depth 9) on volumes with TTL none / 3m / 1h; ageing rewrites every "
-                "stored timestamp and the file mtime; every key read after every step; plus one execution enumerating "
-                "SecondsToTTL for 0..7300 s and unit boundaries; non-trivial = contains ageing and a successful read")
+                "stored timestamp and the file mtime; every key read after every step; non-trivial = contains ageing and a "
+                "successful read. Filer clause (TtlAssign.tla: VolumeTtlFor): executions emitted by TLC from TtlAssignImpl.tla - "
+                "StorageOption.ToAssignRequests for every unit boundary an int32 of seconds can reach (counts 1,2,3,254..257 and the "
+                "largest of m,h,d,w,M,y, each -61..+61 s; 0; 2^31-1) x placement none / dc+rack, plus a dense range of seconds "
+                "(0..7300 thorough; 0..600 and 400 sampled quick) and negative seconds, both requests recorded completely; "
+                "operation.Assign against an in-process master stub with scripted answers: every list of up to 3 requests "
+                "(present / nil) x every answer pattern (call fails / count 0 / count > 0), and the requests ToAssignRequests "
+                "builds for 6 (thorough: about 50, one past every unit boundary) seconds x 4 placements x 9 answer pairs; end to end on the mini-cluster "
+                "(direct, the filer's AssignVolume RPC, a file POSTed with ?ttl=): the TTL of the volume of the returned file id as "
+                "the real volume server reports it; non-trivial = a non-zero number of seconds / a request reached the master / "
+                "the volume was found")
     ctx.exhaustive = False
     ctx.assumptions += ["time passes only through the ageing step (timestamps shifted by whole minutes; comparisons never hit an "
                         "exact boundary because the age set cannot sum to a TTL)",
                         "Store-level API; volume expiry through Store.CollectHeartbeat with a 1 GiB volume size limit",
-                        "filer clause checked at the function that maps an entry TTL in seconds to the volume TTL string "
-                        "(operation.StorageOption.TtlString -> needle.SecondsToTTL)"]
+                        "filer clause: the master serves a request from a volume whose TTL is the request's ttl (C11/C12; in the "
+                        "end-to-end executions the kit's stand-in master, which grows the volume through the real AllocateVolume "
+                        "RPC and ignores data center and rack); a master refuses a request whose ttl does not parse",
+                        "a blob is appended when its entry is created (chunks uploaded long before the entry is written - a slow "
+                        "multi-chunk upload - can expire up to that much earlier than the entry; not observable without waiting)",
+                        "the operation.Assign clause covers the order of the requests, nil requests, the first answer with a count "
+                        "and the ttl / collection / data center / rack that arrive at the master; the other request fields are "
+                        "recorded but not judged"]
